@@ -66,6 +66,14 @@ class TLCResult:
             self.printed = res
         return self.printed
 
+    def raw_json_lines(self):
+        """PrintT(ToJson(x)) output un-escaped but not parsed (for bulk hand-over to the worker)."""
+        res = []
+        for line in self.out.splitlines():
+            if len(line) > 2 and line[0] == '"' and line[-1] == '"' and line[1] in "{[":
+                res.append(line[1:-1].replace('\\"', '"').replace("\\\\", "\\"))
+        return res
+
     def coverage_zero(self):
         """Lines of a -coverage report with count 0 (action never taken)."""
         return [l.strip() for l in self.out.splitlines() if re.search(r"^<\w+ line .*>: 0:0$", l.strip())]
@@ -218,62 +226,69 @@ class Check:
         return sorted(rejected)
 
     # ---------------------------------------------------------------- worker
-    def run_worker(self, family, scenarios, parallel=None, timeout=120, binary=None, env=None, per_scenario_timeout=20,
-                   args=()):
-        """Run scenarios (dicts with unique 'sc') through `worker <family>`; returns {sc: [events]} and
-        {sc: death} where death = {'kind': 'exit'|'timeout'|'signal', 'code':..., 'stderr':..., 'inflight': call}.
-        A worker that dies is restarted after the scenario that killed it."""
+    def run_worker(self, family, scenarios, parallel=None, timeout=600, binary=None, env=None, args=(), keep=None):
+        """Run scenarios through `worker <family>`.  scenarios: list of dicts with a unique 'sc', or of
+        (sc, json-line) pairs.  Returns ({sc: [events]}, {sc: death}); death = {'kind': exit|timeout|signal,
+        'code', 'stderr', 'inflight': the call-start event in flight}.  A worker that dies is restarted after
+        the scenario that killed it.  keep(event) -> bool filters which events are retained (default all)."""
         binary = binary or self.worker_bin
         parallel = parallel or NCPU
-        n = len(scenarios)
+        items = [(s["sc"], json.dumps(s, separators=(",", ":"))) if isinstance(s, dict) else s for s in scenarios]
+        n = len(items)
         if n == 0:
             return {}, {}
-        chunks = [scenarios[i::parallel] for i in range(min(parallel, n))]
+        chunks = [items[i::parallel] for i in range(min(parallel, n))]
         results, deaths = {}, {}
+        wenv = dict(env or os.environ, VERIF_SEED=str(self.seed))
 
         def run_chunk(chunk):
             todo = list(chunk)
             while todo:
-                inp = "\n".join(json.dumps(s, separators=(",", ":")) for s in todo) + "\n"
+                inp = "\n".join(l for _, l in todo) + "\n"
                 try:
                     p = subprocess.run([binary, family] + list(args), input=inp, capture_output=True, text=True,
-                                       timeout=timeout + per_scenario_timeout * 0, env=env)
+                                       timeout=timeout, env=wenv)
                     rc, out, err, to = p.returncode, p.stdout, p.stderr, False
                 except subprocess.TimeoutExpired as e:
-                    rc, out, err, to = -1, (e.stdout or b"").decode() if isinstance(e.stdout, bytes) else (e.stdout or ""), \
-                        (e.stderr or b"").decode() if isinstance(e.stderr, bytes) else (e.stderr or ""), True
+                    so, se = e.stdout or "", e.stderr or ""
+                    rc, to = -1, True
+                    out = so.decode(errors="replace") if isinstance(so, bytes) else so
+                    err = se.decode(errors="replace") if isinstance(se, bytes) else se
                 done = set()
                 cur = None
                 inflight = None
                 for line in out.splitlines():
                     if not line.startswith("{"):
                         continue
+                    if line.startswith('{"ev":"sc-end"'):
+                        done.add(json.loads(line)["sc"])
+                        cur = None
+                        continue
                     try:
                         ev = json.loads(line)
                     except Exception:
                         continue
                     sc = ev.get("sc")
-                    if ev.get("ev") == "sc-end":
-                        done.add(sc)
-                        cur = None
-                        continue
                     if ev.get("ev") == "call-start":
                         inflight = ev
                         cur = sc
                         continue
                     cur = sc
-                    inflight = None if ev.get("ev") == "call-end" else inflight
-                    results.setdefault(sc, []).append(ev)
-                remaining = [s for s in todo if s["sc"] not in done]
-                if rc == 0 and not to and not remaining:
-                    return
-                # the worker died (or was killed) inside scenario `victim`
+                    if ev.get("ev") == "call-end":
+                        inflight = None
+                    if keep is None or keep(ev):
+                        results.setdefault(sc, []).append(ev)
+                remaining = [t for t in todo if t[0] not in done]
                 if not remaining:
                     return
-                victim = remaining[0]["sc"] if cur is None else cur
+                if rc == 0 and not to:
+                    raise FrameworkError("worker exited 0 without finishing its scenarios")
+                if rc == 3:
+                    raise FrameworkError("worker reported a harness error: " + err[-1500:])
+                victim = remaining[0][0] if cur is None else cur
                 kind = "timeout" if to else ("exit" if rc > 0 else "signal")
                 deaths[victim] = {"kind": kind, "code": rc, "stderr": err[-2000:], "inflight": inflight}
-                todo = [s for s in remaining if s["sc"] != victim]
+                todo = [t for t in remaining if t[0] != victim]
 
         with ThreadPoolExecutor(max_workers=len(chunks)) as ex:
             list(ex.map(run_chunk, chunks))
